@@ -4,7 +4,7 @@ from common import *
 def _args(tier, seed):
     if tier == "quick":
         return ["-seed", seed, "-n", 1500, "-maxlen", 40, "-exh", 3, "-exhp", 4, "-conc", 10]
-    return ["-seed", seed, "-n", 12000, "-maxlen", 60, "-exh", 4, "-exhp", 6, "-conc", 60]
+    return ["-seed", seed, "-n", 6000, "-maxlen", 60, "-exh", 4, "-exhp", 6, "-conc", 60]
 
 
 def _run(spec, tier, seed):
